@@ -54,7 +54,11 @@ class _Info:
     """EntityInfo stand-in (name only)"""
 
 
-def _convert_concurrent(it, inp):
+def _convert_concurrent(it, inp, always_temporaries=None):
+    # convert_sequential also reports which signals replace the temporaries its always-expression defines
+    for temp, sig in inp.fields.get("f_always", []):
+        if always_temporaries is not None:
+            always_temporaries[temp] = sig
     return inp.fields["f_ir"]
 
 
@@ -89,8 +93,9 @@ def scenario_spec(connected, cleanup_attr):
             blocks, ctxs = res.fields["f_blocks"], res.fields["f_contexts"]
             if len(ctxs) != 1 or ctxs[0] is not irctx or len(blocks) != 1 or blocks[0].kind is not ir.Entity:
                 return False
-            if blocks[0].fields["f_ports"] is not real.fields["f_subblocks"][0].fields["f_ports"]:
-                return False
+            got_ports, want_ports = blocks[0].fields["f_ports"], real.fields["f_subblocks"][0].fields["f_ports"]
+            if list(got_ports) != list(want_ports) or any(got_ports[k] is not want_ports[k] for k in want_ports):
+                return False  # every formal keeps the actual it was given (the same objects)
             rep = irctx.fields.get("__replaced__")
             kept = rep is irctx.fields["__stmt__"]
             removed = isinstance(rep, SObj) and rep.kind is ir.CodeBlock
@@ -111,7 +116,7 @@ for connected, cleanup_attr in ((True, None), (False, None), (True, False), (Tru
     c.models = [(GI.IrGenerator.__dict__["convert_concurrent"].__func__, _convert_concurrent)]
     c.interp_flags = {"class_call_models": {
         ir.EntityTemplate: lambda it, args, kw: SObj(ir.EntityTemplate, f_info=args[0], f_blocks=list(args[1]), f_contexts=list(args[2])),
-        ir.Entity: lambda it, args, kw: SObj(ir.Entity, f_template=args[0], f_name=args[1], f_ports=args[2], f_generics=args[3]),
+        ir.Entity: lambda it, args, kw: SObj(ir.Entity, f_template=args[0], f_name=args[1], f_ports=args[2], _ports=args[2], f_generics=args[3]),
     }}
     c.custom_replay = "contracts.c12_actuals.replay_undriven_actual"
     c.finding_key = "intermediate-connected-to-an-instance-port-loses-its-assignment"
@@ -124,6 +129,120 @@ for connected, cleanup_attr in ((True, None), (False, None), (True, False), (Tru
 
     c.setup = setup
     con.cases.append(c)
+
+
+# ---- an instance created inside the always-expression of a SEQUENTIAL context ------------------------------------------------------
+# `cohdl.always(Leaf(a=self.i ^ self.j, y=...))`: the expression's intermediate T is defined in the hoisted concurrent block.
+# convert_sequential replaces T by a fresh SIGNAL in that block and in the process (only signals are shared between them); the
+# instance, which was registered in the enclosing block before, must be connected to that signal too -- otherwise its port map
+# names a temporary that nothing drives.
+from cohdl import Bit as _Bit  # noqa: E402
+
+
+def always_scenario(view):
+    def make(env):
+        T = SObj(Temporary, _ref_spec=[], f_tag="T", type=_Bit)
+        T.fields["_root"] = T
+        S = SObj(Signal, _ref_spec=[], f_tag="S (replaces T)")
+        S.fields["_root"] = S
+        other = SObj(Signal, _ref_spec=[], f_tag="y")
+        other.fields["_root"] = other
+        actual = T if not view else SObj(Temporary, _root=T, _ref_spec=["<slice>"], f_tag="T[1:0]", type=_Bit)
+        irctx = SObj(ir.Sequential, attributes={}, __events__=[])
+        leaf = SObj(OUT.EntityTemplate, f_leaf=True)
+        inst = SObj(OUT.Entity, f_template=leaf, f_ports={"a": actual, "y": other}, _info=SObj(_Info, name="Leaf"))
+        top = SObj(OUT.EntityTemplate, f_subblocks=[inst], f_contexts=[SObj(OUT.Sequential, f_ir=irctx, f_always=[(T, S)])], _info="INFO")
+        top.fields.update(f_T=T, f_S=S, f_actual=actual, f_other=other, f_leaf=leaf)
+        return top
+
+    return Built([], make, lambda a: "None", lambda a: None)
+
+
+def always_spec(view):
+    def spec(sx, self, inp):
+        real = sx.real_args[1].fields
+
+        def holds(res):
+            if not (isinstance(res, SObj) and res.kind is ir.EntityTemplate):
+                return False
+            blocks = res.fields["f_blocks"]
+            if len(blocks) != 1 or blocks[0].kind is not ir.Entity:
+                return False
+            ports = blocks[0].fields["f_ports"]
+            a = ports.get("a")
+            # the actual of `a`: the same bits (reference path) of the signal that replaced T
+            if not (isinstance(a, SObj) and a.kind is Signal and a.fields.get("f_root") is real["f_S"] and a.fields.get("f_ref") is real["f_actual"].fields["_ref_spec"]):
+                return False
+            return ports.get("y") is real["f_other"] and list(ports) == ["a", "y"]
+
+        return C.Pred(holds, "the instance port is connected to the signal that replaced the always-temporary (same reference path)")
+
+    return spec
+
+
+for view in (False, True):
+    c = Case(f"instance-in-always-expression,actual-is-{'a-slice-of-' if view else ''}the-always-temporary",
+             [Built([], lambda env: SObj(GI.ConvertInstance), lambda a: "None", lambda a: None), always_scenario(view)], always_spec(view), props=("C12",))
+    c.native = False
+    c.models = [
+        (GI.IrGenerator.__dict__["convert_sequential"].__func__, _convert_concurrent),
+        (GI.ConvertInstance.__dict__["detect_uninitialized_temporaries"].__func__, lambda it, ctx, *a, **k: ctx),
+        (GI.ConvertInstance.__dict__["cleanup_bool_cast"].__func__, lambda it, ctx, *a, **k: ctx),
+        (GI.ConvertInstance.__dict__["cleanup_unused"].__func__, lambda it, ctx, *a, **k: ctx),
+    ]
+    _mk_sig =lambda it, args, kw: SObj(Signal, f_value=args[0] if args else None, f_root=kw.get("_root"), f_ref=kw.get("_ref_spec"))  # noqa: E731
+    c.interp_flags = {"class_call_models": {
+        ir.EntityTemplate: lambda it, args, kw: SObj(ir.EntityTemplate, f_info=args[0], f_blocks=list(args[1]), f_contexts=list(args[2])),
+        ir.Entity: lambda it, args, kw: SObj(ir.Entity, f_template=args[0], f_name=args[1], f_ports=args[2], _ports=args[2], f_generics=args[3]),
+        Signal[_Bit]: _mk_sig, Signal: _mk_sig,
+    }}
+    c.custom_replay = "contracts.c12_actuals.replay_always_instance"
+
+    def setup_always(it, ctx, args, env):
+        self, top = args
+        it.call(I.BoundMethod(GI.ConvertInstance.__dict__["__init__"], self), [], {})
+        it.leaf, it.cached = top.fields["f_leaf"], SObj(ir.EntityTemplate, f_tag="leaf (cached)")
+
+    c.setup = setup_always
+    con.cases.append(c)
+
+if "_connect_always_temporaries" in GI.ConvertInstance.__dict__:
+    I.register_inline(GI.ConvertInstance.__dict__["_connect_always_temporaries"])
+
+
+_ALWAYS_INSTANCE = '''
+import re
+import cohdl
+from cohdl import Entity, Port, Bit, BitVector, std
+class Leaf(Entity):
+    a = Port.input(BitVector[2])
+    q = Port.output(BitVector[2])
+    def architecture(self):
+        @std.concurrent
+        def logic():
+            self.q <<= self.a
+class Top(Entity):
+    clk = Port.input(Bit)
+    i = Port.input(BitVector[4])
+    o = Port.output(BitVector[2])
+    def architecture(self):
+        s = cohdl.Signal[BitVector[2]](name="s")
+        @std.sequential(std.Clock(self.clk))
+        def proc():
+            cohdl.always(Leaf(a=self.i[1:0] ^ self.i[3:2], q=s))
+            self.o <<= s
+t = std.VhdlCompiler.to_string(Top)
+top = t[t.index("architecture arch_Top"):]
+actual = re.search(r"a => (\\w+)", top).group(1)
+print("ACTUAL", actual, "DRIVEN" if re.search(rf"^\\s*{actual} <=", top, re.M) else "UNDRIVEN")
+'''
+
+
+def replay_always_instance(payload):
+    from contracts.c06_extra import _run_design
+
+    rc, out = _run_design(_ALWAYS_INSTANCE)
+    return {"reproduced": rc == 0 and "UNDRIVEN" in out, "detail": out[-300:]}
 
 
 # ---- sequential contexts: the definite-assignment analysis always runs, before any clean-up pass -----------------------------
